@@ -231,7 +231,7 @@ structure Alloc where
   live   : Nat
   deriving Repr, DecidableEq
 
-/-- `run_continuable_sink` for one octet -/
+/-- `run_continuable_sink` for one octet (`setup_buffer` marks min(F, B) octets of the block as used) -/
 def csStep (c : Cfg) (st : CS × Alloc) (o : Octet) : CS × Alloc :=
   let (cs, al) := st
   let cap := c.B - c.F
@@ -252,10 +252,10 @@ def csStep (c : Cfg) (st : CS × Alloc) (o : Octet) : CS × Alloc :=
       else if 0 < cap then
         ({ cs with blk := some [o] }, { al' with live := al.live + 1 })
       else
-        ({ cs with blk := some [], err := some .enomem, count := c.F + 1 }, { al' with live := al.live + 1 })
+        ({ cs with blk := some [], err := some .enomem, count := min c.F c.B + 1 }, { al' with live := al.live + 1 })
     | some d =>
       if d.length < cap then ({ cs with blk := some (d ++ [o]) }, al)
-      else ({ cs with err := some .enomem, count := c.F + d.length + 1 }, al)
+      else ({ cs with err := some .enomem, count := min c.F c.B + d.length + 1 }, al)
 
 def csRun (c : Cfg) (al : Alloc) (got : List Octet) : CS × Alloc :=
   got.foldl (csStep c) ({}, al)
